@@ -161,7 +161,11 @@ pub fn asm_event(inst: &SInst, ctx: &[SInst], tag: &str) -> Value {
             for c in ctx { bin.extend(c.encode()); }
             bin.extend(ws.iter());
             let mut c = Scripted::new(vec![]);
-            match catch(|| binary::parse_words(&bin, &mut c)) {
+            // alternately through parse_words and parse_bytes: the two entry points must agree (the instruction under test
+            // is the LAST of the binary, so whatever an entry point does to the end of its input shows here)
+            thread_local! { static ASM_N: std::cell::Cell<u64> = std::cell::Cell::new(0); }
+            let via_bytes = ASM_N.with(|n| { n.set(n.get() + 1); n.get() % 2 == 0 });
+            match catch(|| if via_bytes { binary::parse_bytes(words_to_bytes(&bin), &mut c) } else { binary::parse_words(&bin, &mut c) }) {
                 Err(p) => base("ok", jws(&ws), "panic", json!([]), jpanic(&p)),
                 Ok(Ok(())) if c.insts.len() == ctx.len() + 1 => base("ok", jws(&ws), "ok", json!([j_inst(&c.insts[ctx.len()])]), json!([])),
                 Ok(other) => base("ok", jws(&ws), "err", json!([]), j_state(&other)),
@@ -599,7 +603,7 @@ fn c10_random(out: &mut Out, rng: &mut Rng, n: usize) {
         let mut ws: Vec<u32> = HEADER.to_vec();
         let mut fresh = 100u32;
         for _ in 0..len {
-            let id = 1 + rng.below(20) as u32;
+            let id = rng.below(21) as u32;   // 0 too: "ids defined once", not "ids above zero"
             let undefined = !defined.contains(&id);
             let widths = [7u32, 8, 16, 32, 64, 128, 0, 65];
             let words = |t: Option<&(bool, u32)>| -> i64 { match t { None => 1, Some((true, w)) => match w { 8 | 16 | 32 => 1, 64 => 2, _ => 0 }, Some((false, w)) => match w { 16 | 32 => 1, 64 => 2, _ => 0 } } };
